@@ -88,6 +88,12 @@ variable {Hash Sig CoSig : Type} [DecidableEq Hash]
 
 def Env.known (env : Env Hash Sig CoSig) (id : LogId) : Bool := env.logList.contains id
 
+/-- the STH names a log (non-zero `log_id`) other than the one addressed -/
+def idMismatch (f : Option Bytes) (idh : Bytes) : Bool :=
+  match f with
+  | none => false
+  | some x => x != idh
+
 /-- `Witness.parse`: lookup, JSON, log-ID decode, fill in / compare the log ID, verify the signature. -/
 def parse (env : Env Hash Sig CoSig) (id : LogId) (raw : Raw Hash Sig) : Except ParseErr (Sth Hash Sig) :=
   if !env.known id then .error .notFound else
@@ -97,7 +103,7 @@ def parse (env : Env Hash Sig CoSig) (id : LogId) (raw : Raw Hash Sig) : Except 
     match env.idOf id with
     | none => .error .badId
     | some idh =>
-      if (match s.idField with | none => false | some x => x != idh) then .error .mismatch
+      if idMismatch s.idField idh then .error .mismatch
       else if !env.verify id s.ts s.size s.root s.sig then .error .badSig
       else .ok { s with idField := some idh }
 
